@@ -1,3 +1,164 @@
-//! C18 bounded native checks (not written yet)
+//! C18 bounded: angle normalisation, directed angles (angles and vectors), angular intervals, scalar intervals on an
+//! enumerated set of special values: 0, +-pi, +-2pi and their one-ulp neighbours, tiny negatives, multiples of pi up to
+//! 1e6, and a coarse grid. Oracles use sin/cos of the ORIGINAL argument ("denotes the same direction").
 use super::Report;
-pub fn run() -> Option<Report> { None }
+use crate::common::{angle_in_direction, angle_signed_pi, angle_to_2pi, signed_compliment_2pi, AngleDir, AngleInterval, Interval};
+use crate::geom2::{directed_angle, rot270, rot90, signed_angle, Vector2};
+use std::f64::consts::PI;
+
+fn up(x: f64) -> f64 { if x == 0.0 { f64::from_bits(1) } else if x > 0.0 { f64::from_bits(x.to_bits() + 1) } else { f64::from_bits(x.to_bits() - 1) } }
+fn down(x: f64) -> f64 { -up(-x) }
+
+fn same_dir(a: f64, b: f64, scale: f64) -> bool {
+    // direction equality through sin/cos; the error of reducing `a` grows with |a|
+    let t = 1e-9 * (1.0 + scale.abs());
+    (a.sin() - b.sin()).abs() <= t && (a.cos() - b.cos()).abs() <= t
+}
+
+fn angles() -> Vec<f64> {
+    let mut v = vec![];
+    for base in [0.0, PI, -PI, 2.0 * PI, -2.0 * PI, PI / 2.0, -PI / 2.0, 3.0 * PI, -3.0 * PI, 17.0 * PI, -17.0 * PI, 1000.0 * PI, 1.0e6, -1.0e6, 123456.789] {
+        v.push(base);
+        v.push(up(base));
+        v.push(down(base));
+        v.push(up(up(base)));
+        v.push(down(down(base)));
+    }
+    for k in -20..=20 { v.push(k as f64 * 0.37); v.push(k as f64 * PI / 4.0); }
+    v.extend_from_slice(&[-1e-300, -1e-17, 1e-17, -f64::MIN_POSITIVE, 6.283185307179586, 6.283185307179587, -1.976121093834741, -1.9761210938347409, 53.40707511102649]);
+    // a few ulps around odd multiples of pi (17 pi .. 61 pi)
+    for k in [17.0, 19.0, 33.0, 61.0] { let b: f64 = k * PI; let mut x = b; for _ in 0..4 { x = up(x); v.push(x); v.push(-x); } let mut y = b; for _ in 0..4 { y = down(y); v.push(y); v.push(-y); } }
+    v
+}
+
+pub fn run() -> Option<Report> {
+    let mut r = Report::new("angles: ~330 special values (0, +-pi, +-2pi, odd multiples of pi up to 61pi, 1000pi, +-1e6, each with +-1 and +-2 ulp neighbours, grids of 0.37 and pi/4, tiny negatives); all pairs of a 60-value subset for directed angles; AngleInterval over 13 starts x 13 extents x 40 probes; vectors: 24 directions x 24 directions incl. equal and exactly opposite; Interval over 9 bound values incl. +-inf, 0, -0 and equal bounds");
+    let av = angles();
+    for &a in av.iter() {
+        r.case();
+        let d = || format!("angle {:?} (bits {:#x})", a, a.to_bits());
+        let u = angle_to_2pi(a);
+        r.check(u >= 0.0 && u <= 2.0 * PI, "angle_to_2pi result in [0, 2pi]", d);
+        r.check(same_dir(u, a, a), "angle_to_2pi denotes the same direction", d);
+        let s = angle_signed_pi(a);
+        r.check(s >= -PI && s <= PI, "angle_signed_pi result in [-pi, pi]", d);
+        r.check(same_dir(s, a, a), "angle_signed_pi denotes the same direction", d);
+        if a >= -2.0 * PI && a <= 2.0 * PI {
+            let c = signed_compliment_2pi(a);
+            r.check(same_dir(c, a, a), "signed_compliment_2pi denotes the same direction", d);
+            r.check(c >= -2.0 * PI && c <= 2.0 * PI && (a == 0.0 || c == 0.0 || (c > 0.0) != (a > 0.0)), "signed_compliment_2pi has the opposite sign, within [-2pi, 2pi]", d);
+        }
+    }
+    let mut sub: Vec<f64> = av.iter().cloned().filter(|x| x.abs() <= 64.0).step_by(4).collect();
+    // nearly equal pairs (one ulp apart): the directed angle must not leave [0, 2pi]
+    for b in [-1.976121093834741f64, 0.1, 1.0, -3.0, 3.1, 2.5] { sub.push(b); sub.push(up(b)); sub.push(down(b)); }
+    for &a in sub.iter() { for &b in sub.iter() {
+        r.case();
+        let d = || format!("angle_in_direction({:?}, {:?})", a, b);
+        let cw = angle_in_direction(a, b, AngleDir::Cw);
+        let ccw = angle_in_direction(a, b, AngleDir::Ccw);
+        r.check(cw >= 0.0 && cw <= 2.0 * PI && ccw >= 0.0 && ccw <= 2.0 * PI, "directed angle between two angles in [0, 2pi]", d);
+        r.check(same_dir(a + ccw, b, 64.0), "rotating the first angle counter-clockwise by the directed angle gives the second", d);
+        r.check(same_dir(a - cw, b, 64.0), "rotating the first angle clockwise by the directed angle gives the second", d);
+        r.check((cw + ccw - 2.0 * PI).abs() <= 1e-9 || (cw.abs() <= 1e-9 && ccw.abs() <= 1e-9) || ((cw - 2.0 * PI).abs() <= 1e-9 && ccw.abs() <= 1e-9) || ((ccw - 2.0 * PI).abs() <= 1e-9 && cw.abs() <= 1e-9),
+                "cw + ccw directed angles sum to a full turn or are both zero", d);
+    } }
+    // vectors
+    let mut dirs: Vec<Vector2> = vec![];
+    for k in 0..24 { let t = k as f64 * PI / 12.0; dirs.push(Vector2::new(t.cos(), t.sin())); }
+    dirs.extend_from_slice(&[Vector2::new(1.0, 0.0), Vector2::new(-1.0, 0.0), Vector2::new(0.0, 1.0), Vector2::new(0.0, -1.0), Vector2::new(0.3, -0.7), Vector2::new(-0.3, 0.7), Vector2::new(-2.0, -4.0), Vector2::new(1.0, 2.0), Vector2::new(2.0, 4.0)]);
+    for v1 in dirs.iter() { for v2 in dirs.iter() {
+        r.case();
+        let d = || format!("v1=({:?},{:?}) v2=({:?},{:?})", v1.x, v1.y, v2.x, v2.y);
+        let cw = directed_angle(v1, v2, AngleDir::Cw);
+        let ccw = directed_angle(v1, v2, AngleDir::Ccw);
+        r.check(cw >= 0.0 && cw <= 2.0 * PI && ccw >= 0.0 && ccw <= 2.0 * PI, "directed angle between two vectors in [0, 2pi]", d);
+        let rot = |v: &Vector2, t: f64| Vector2::new(v.x * t.cos() - v.y * t.sin(), v.x * t.sin() + v.y * t.cos());
+        let par = |a: Vector2, b: &Vector2| { let (na, nb) = (a.norm(), b.norm()); ((a.x / na - b.x / nb).abs() <= 1e-9) && ((a.y / na - b.y / nb).abs() <= 1e-9) };
+        r.check(par(rot(v1, ccw), v2), "rotating the first vector counter-clockwise by the directed angle gives the second", d);
+        r.check(par(rot(v1, -cw), v2), "rotating the first vector clockwise by the directed angle gives the second", d);
+        r.check((cw + ccw - 2.0 * PI).abs() <= 1e-9 || (cw.abs() <= 1e-9 && ccw.abs() <= 1e-9), "cw + ccw directed vector angles sum to a full turn or are both zero", d);
+        let s = signed_angle(v1, v2);
+        r.check(s >= -PI && s <= PI && par(rot(v1, s), v2), "signed_angle in [-pi, pi] and rotates v1 onto v2", d);
+    } }
+    for dir in [AngleDir::Cw, AngleDir::Ccw] {
+        let v = Vector2::new(0.6, 0.8);
+        let a = rot90(dir) * v;
+        let b = rot270(dir) * v;
+        let e = if matches!(dir, AngleDir::Ccw) { Vector2::new(-0.8, 0.6) } else { Vector2::new(0.8, -0.6) };
+        r.check((a - e).norm() <= 1e-12 && (b + e).norm() <= 1e-12, "rot90 / rot270 rotate by a quarter / three quarters of a turn in the stated direction", || format!("{:?}", dir));
+    }
+    // angular intervals
+    let starts = [0.0, 0.5, PI, 2.0 * PI - 0.25, 2.0 * PI, -0.5, -PI, 7.0, -7.0, 1e-13, 3.0 * PI, 0.25, 6.0];
+    let extents = [0.0, 0.25, 1.0, PI, 2.0 * PI - 0.5, 2.0 * PI, 7.0, -0.25, -1.0, -PI, -2.0 * PI, -7.0, 1e-9];
+    for &s0 in starts.iter() { for &e0 in extents.iter() {
+        r.case();
+        let iv = AngleInterval::new(s0, e0);
+        let d = || format!("AngleInterval::new({:?}, {:?})", s0, e0);
+        r.check(iv.start() >= 0.0 && iv.start() <= 2.0 * PI && iv.angle() >= 0.0 && iv.angle() <= 2.0 * PI, "AngleInterval start and extent normalised to [0, 2pi]", d);
+        // the swept set: from s0 through s0+e0 (either sign), capped at a full turn
+        let sweep = if e0.abs() >= 2.0 * PI { 2.0 * PI * e0.signum() } else { e0 };
+        for k in 0..=20 {
+            let a = s0 + sweep * (k as f64) / 20.0;
+            r.check(iv.contains(a) && iv.contains(a + 2.0 * PI) && iv.contains(a - 4.0 * PI), "an angle swept from start through extent is contained (any representative)", || format!("{} contains({:?})", d(), a));
+        }
+        if sweep.abs() < 2.0 * PI - 1e-3 {
+            let gap = 2.0 * PI - sweep.abs();
+            for k in 1..20 {
+                // strictly inside the complementary arc, at least 1e-4 away from both ends
+                let off = gap * (k as f64) / 20.0;
+                if off < 1e-4 || gap - off < 1e-4 { continue; }
+                let a = if sweep >= 0.0 { s0 + sweep + off } else { s0 + sweep - off };
+                r.check(!iv.contains(a), "an angle outside the swept set is not contained", || format!("{} contains({:?})", d(), a));
+            }
+        }
+        r.check((iv.at_fraction(0.0) - iv.start()).abs() <= 1e-12 && (iv.at_fraction(1.0) - (iv.start() + iv.angle())).abs() <= 1e-12, "at_fraction spans start..start+extent", d);
+    } }
+    // intersects <=> share an angle (brute force on a fine grid of the first interval vs. containment in the second)
+    for &s0 in [0.0, 1.0, 3.0, 6.0].iter() { for &e0 in [0.5, 2.0, -1.0].iter() { for &s1 in [0.25, 2.5, 5.9, 4.0].iter() { for &e1 in [0.5, 3.0, -2.0].iter() {
+        r.case();
+        let a = AngleInterval::new(s0, e0);
+        let b = AngleInterval::new(s1, e1);
+        let mut share = false;
+        let mut near = false;
+        for k in 0..=2000 { let t = s0 + e0 * (k as f64) / 2000.0; if b.contains(t) { share = true; } }
+        for k in 0..=2000 { let t = s1 + e1 * (k as f64) / 2000.0; if a.contains(t) { share = true; } }
+        // avoid grazing configurations in the oracle
+        for (x, y, ex) in [(s0, &b, e0), (s1, &a, e1)] { for end in [x, x + ex] { for eps in [-1e-6, 1e-6] { if y.contains(end + eps) != y.contains(end) { near = true; } } } }
+        if !near {
+            r.check(a.intersects(&b) == share && b.intersects(&a) == share, "angular intervals intersect exactly when they share an angle", || format!("new({:?},{:?}) vs new({:?},{:?})", s0, e0, s1, e1));
+        }
+    } } } }
+    // scalar intervals
+    let bounds = [f64::NEG_INFINITY, -1.0, -0.0, 0.0, 0.5, 1.0, 2.0, 3.0, f64::INFINITY];
+    let probes = [f64::NEG_INFINITY, -2.0, -1.0, -0.5, 0.0, 0.25, 0.5, 0.75, 1.0, 1.5, 2.0, 2.5, 3.0, 4.0, f64::INFINITY];
+    for &a0 in bounds.iter() { for &a1 in bounds.iter() {
+        let ia = Interval::new(a0, a1);
+        let d = || format!("Interval::new({:?}, {:?})", a0, a1);
+        r.case();
+        r.check(ia.min <= ia.max && ((ia.min == a0 && ia.max == a1) || (ia.min == a1 && ia.max == a0)), "scalar interval orders its bounds", d);
+        for &x in probes.iter() {
+            r.check(ia.contains(x) == (ia.min <= x && x <= ia.max), "contains agrees with min <= x <= max", || format!("{} contains({:?})", d(), x));
+            let c = ia.clamp(x);
+            r.check(ia.contains(c) && (!ia.contains(x) || c == x), "clamp lands inside and is the identity inside", || format!("{} clamp({:?})", d(), x));
+        }
+        for &b0 in bounds.iter() { for &b1 in bounds.iter() {
+            let ib = Interval::new(b0, b1);
+            let d2 = || format!("{} vs Interval::new({:?}, {:?})", d(), b0, b1);
+            let lo = ia.min.max(ib.min); let hi = ia.max.min(ib.max);
+            let common = lo <= hi;
+            r.check(ia.overlaps(&ib) == common && ib.overlaps(&ia) == common, "overlaps <=> the intervals share a point", d2);
+            match (ia.intersection(&ib), ib.intersection(&ia)) {
+                (None, None) => r.check(!common, "intersection is None only when nothing is shared", d2),
+                (Some(i), Some(j)) => {
+                    r.check(common && i.min == lo && i.max == hi && j.min == lo && j.max == hi, "intersection is [max of mins, min of maxes], commutative", d2);
+                    r.check(ia.contains_interval(&i) && ib.contains_interval(&i), "intersection is contained in both operands", d2);
+                }
+                _ => r.check(false, "intersection is commutative (Some/None)", d2),
+            }
+            r.check(ia.contains_interval(&ib) == (ia.min <= ib.min && ib.max <= ia.max), "contains_interval agrees with its set definition", d2);
+        } }
+    } }
+    r.check(Interval::try_new(f64::NAN, 0.0).is_err() && Interval::try_new(0.0, f64::NAN).is_err() && Interval::try_new(1.0, 0.0).is_ok(), "try_new rejects exactly NaN bounds", || "NaN".to_string());
+    Some(r)
+}
